@@ -306,7 +306,20 @@ fn run_check(prop: &str, tier: &str, batch: u64) -> i32 {
         done: bool,
         /// The forked copy of the worker that runs the current episode.
         episode_pid: Option<i32>,
+        /// Set when the episode was first seen without progress for `hang_limit`: the time
+        /// and the CPU seconds its process had used by then.  It is a hang when the process
+        /// goes on to burn CPU time without a frame (a busy machine alone does not do that).
+        suspect: Option<(std::time::Instant, f64)>,
     }
+    // CPU seconds (user + system) a process has used, from /proc/<pid>/stat
+    let proc_cpu_secs = |pid: i32| -> Option<f64> {
+        let stat = std::fs::read_to_string(format!("/proc/{pid}/stat")).ok()?;
+        let rest = stat.rsplit_once(')')?.1;
+        let f: Vec<&str> = rest.split_whitespace().collect();
+        let (ut, st) = (f.get(11)?.parse::<f64>().ok()?, f.get(12)?.parse::<f64>().ok()?);
+        let hz = unsafe { libc::sysconf(libc::_SC_CLK_TCK) } as f64;
+        Some((ut + st) / if hz > 0.0 { hz } else { 100.0 })
+    };
     let hang_limit = std::time::Duration::from_secs(std::env::var("VERIF_TUI_HANG_SECS").ok().and_then(|s| s.parse().ok()).unwrap_or(8));
     let spawn = |w: u64, generation: u64, start: u64, count: u64, tx: std::sync::mpsc::Sender<Msg>| -> Result<std::process::Child, String> {
         let mut child = Command::new(&exe)
@@ -344,7 +357,7 @@ fn run_check(prop: &str, tier: &str, batch: u64) -> i32 {
         }
         match spawn(w, 0, w, count, tx.clone()) {
             Ok(child) => {
-                slots.insert(w, Slot { child, next_start: w, remaining: count, current: None, generation: 0, last_progress: std::time::Instant::now(), last_hb: String::new(), done: false, episode_pid: None });
+                slots.insert(w, Slot { child, next_start: w, remaining: count, current: None, generation: 0, last_progress: std::time::Instant::now(), last_hb: String::new(), done: false, episode_pid: None, suspect: None });
             }
             Err(e) => {
                 eprintln!("harness error: cannot start worker: {e}");
@@ -404,9 +417,32 @@ fn run_check(prop: &str, tier: &str, batch: u64) -> i32 {
         }
         // watchdog
         let now = std::time::Instant::now();
-        let stuck: Vec<u64> = slots.iter().filter(|(_, s)| !s.done && s.current.is_some() && now.duration_since(s.last_progress) > hang_limit).map(|(w, _)| *w).collect();
+        let mut stuck: Vec<u64> = Vec::new();
+        for (w, s) in slots.iter_mut() {
+            if s.done || s.current.is_none() || now.duration_since(s.last_progress) <= hang_limit {
+                s.suspect = None;
+                continue;
+            }
+            let pid = s.episode_pid.unwrap_or(s.child.id() as i32);
+            let cpu = proc_cpu_secs(pid);
+            match (s.suspect, cpu) {
+                (None, Some(c)) => s.suspect = Some((now, c)),
+                (None, None) => s.suspect = Some((now, -1.0)),
+                (Some((since, c0)), Some(c)) if c0 >= 0.0 => {
+                    if c - c0 >= hang_limit.as_secs_f64() * 0.75 || now.duration_since(since) > hang_limit * 10 {
+                        stuck.push(*w);
+                    }
+                }
+                (Some((since, _)), _) => {
+                    if now.duration_since(since) > hang_limit * 3 {
+                        stuck.push(*w);
+                    }
+                }
+            }
+        }
         for w in stuck {
             let slot = slots.get_mut(&w).expect("slot");
+            slot.suspect = None;
             let (i, seed) = slot.current.take().expect("current episode");
             // where is it stuck?  sample the worker's stack before killing it
             let stack = Command::new("gdb")
